@@ -76,12 +76,12 @@ class Walker:
                 cur = cur | {x[2] for x in mine}
             return cur, ex
         if k == "if":
-            c, ex = self.cond(e["c"], states)
-            t, ex1 = self.block(e["t"], c)
+            ct, cf, ex = self.split(e["c"], states)
+            t, ex1 = self.block(e["t"], ct)
             if e.get("e") is not None:
-                f, ex2 = self.expr(e["e"], c)
+                f, ex2 = self.expr(e["e"], cf)
             else:
-                f, ex2 = c, set()
+                f, ex2 = cf, set()
             return t | f, ex | ex1 | ex2
         if k == "match":
             c, ex = self.expr(e["e"], states)
@@ -98,8 +98,10 @@ class Walker:
         if k in ("loop", "while", "for"):
             ex = set()
             cur = states
+            out_false = set()
             if k == "while":
-                cur, ex0 = self.cond(e["c"], cur)
+                cur, cf0, ex0 = self.split(e["c"], cur)
+                out_false |= cf0
                 ex |= ex0
             if k == "for":
                 cur, ex0 = self.expr(e["e"], cur)
@@ -109,7 +111,8 @@ class Walker:
             again = body | {x[2] for x in exb if x[0] == "continue" and x[1] in (None, e.get("label"))}
             if k == "while":
                 # the condition is evaluated again before every further iteration
-                again, ex1 = self.cond(e["c"], again)
+                again, cf1, ex1 = self.split(e["c"], again)
+                out_false |= cf1
                 ex |= ex1
             body2, exb2 = self.block(e["b"], again)
             exb |= exb2
@@ -121,7 +124,7 @@ class Walker:
             after = {x[2] for x in brk}
             if k == "while":
                 # the loop is left after the condition was evaluated (and found false)
-                after |= cur | again
+                after |= out_false
             elif k != "loop":
                 after |= cur | body | {x[2] for x in cont}
             return after, ex | rest
@@ -191,6 +194,23 @@ class Walker:
 
     def cond(self, c, states):
         return self.expr(c, states)
+
+    def split(self, c, states):
+        """states when the condition holds / does not hold: in `a && b` the then-side has evaluated both operands"""
+        if isinstance(c, dict) and c.get("k") == "bin" and c.get("op") in ("&&", "||"):
+            ta, fa, ex = self.split(c["l"], states)
+            if c["op"] == "&&":
+                tb, fb, ex2 = self.split(c["r"], ta)
+                return tb, fa | fb, ex | ex2
+            tb, fb, ex2 = self.split(c["r"], fa)
+            return ta | tb, fb, ex | ex2
+        if isinstance(c, dict) and c.get("k") == "un" and c.get("op") == "!":
+            t, f, ex = self.split(c["e"], states)
+            return f, t, ex
+        if isinstance(c, dict) and c.get("k") == "paren":
+            return self.split(c["e"], states)
+        cur, ex = self.expr(c, states)
+        return cur, cur, ex
 
 
 def run(block, init, step, enter_closures=False):
